@@ -486,12 +486,13 @@ func runC18(rc *RunCtx) (*Violation, error) {
 	}
 	// faults stop; within a few leases the worker must have drained the outbox
 	rc.Faults.Armed = false
-	if err := rc.S.RunFor(5*lease + 30*time.Second); err != nil {
+	rc.S.Policy.StallDen = 0 // stalls are faults too: they stop here
+	if err := rc.S.RunFor(5*lease + 12*time.Second + 30*time.Second); err != nil {
 		return nil, err
 	}
 	pending, err := w.QueryInt(ctx, "SELECT COUNT(*) FROM part_outbox_entries")
 	if err == nil && pending != 0 {
-		return rc.Fail("drain", "outbox-not-drained", "%d outbox entries remain %v after the last fault (lease %v)", pending, 5*lease+30*time.Second, lease), nil
+		return rc.Fail("drain", "outbox-not-drained", "%d outbox entries remain %v after the last fault (lease %v)", pending, 5*lease+42*time.Second, lease), nil
 	}
 	// final state per part = last committed op in a linearization; check inner store against every read-back through the outbox
 	var final *Violation
@@ -552,7 +553,15 @@ func init() {
 		Run:  runC14,
 	})
 	Register(&Scenario{
-		Prop: "C18", Name: "outbox-part-register", Policy: concPolicy,
+		Prop: "C18", Name: "outbox-part-register",
+		Policy: func(g *sim.Tape, tier string) sim.Policy {
+			p := concPolicy(g, tier)
+			// stalled workers: a flush worker parked between claim, replay and
+			// finalize for longer than its lease while the other one runs on
+			p.StallDen = []int{0, 25, 10}[g.Int(3)]
+			p.StallMax = 12 * time.Second
+			return p
+		},
 		Rule: "2-3 client tasks commit or roll back PutPart/DeletePart transactions and read (tx-bound and tx-free GetPart, GetPartIds) 2-4 part ids through the outbox part store while its real flush worker (and in half the runs a second worker instance with the same outbox id) runs with 1-5 s leases under a preempting scheduler, scheduler idle steps (lease expiry between replay and finalize) and injected inner-store errors; porcupine per part id against a register of committed content; after faults stop, within 5 leases + 30 s of simulated time the outbox table is empty and the inner store equals what the outbox store reports; non-trivial = at least 5 recorded operations",
 		Real: realStack,
 		Run:  runC18,
